@@ -42,16 +42,11 @@ TRUSTED = ['oracle contracts of OpusModel/EncSkel/Frame.lean (silk_Encode return
 REQUIRED_THEOREMS = ['OpusProps.C05.' + t for t in (
     'cbrBytes_spec', 'ret_le_out', 'cbr_size_exact', 'bitrate_max_fills', 'too_small_clean', 'never_internal_error',
     'stOk_preserved', 'stOk_along_histories', 'encode_keeps_encInv', 'ms_encode_ret_le_out', 'cvbr_reservoir_bounded',
-    'cvbr_average_bound', 'ms_rate_floor', 'ms_rate_sum', 'ms_rate_no_overflow', 'ms_rate_no_overflow_standard',
-    'ms_rate_overflow_generic', 'ms_encode_ret_le_out_alloc')]
+    'cvbr_average_bound', 'ms_rate_floor', 'ms_rate_sum', 'ms_rate_no_overflow', 'ms_encode_ret_le_out_alloc')]
 UNPROVED = ['range lemmas "no 32-bit overflow" for the budget arithmetic (model uses unbounded Int; products stay below 2^31 for '
             'Fs <= 48000, bit-rate <= 1.5e6, out_data_bytes clamped to 1276 — covered by UBSan on explored inputs only)',
             'that the float-driven CVBR target makes the average APPROACH the requested rate (only the upper bound '
-            'cvbr_average_bound is a theorem; CELT-only frames; hybrid frames run unconstrained by design)',
-            'no 32-bit overflow in the multistream rate allocation for layouts with more than 13 input channels per coded channel '
-            '(opus_multistream_encoder_create with muted / shared input channels): FALSE there, theorem ms_rate_overflow_generic and '
-            'search suite msrate-search-generic exhibit channel_rate*coupled_ratio overflowing at opus_multistream_encoder.c:729 '
-            '(finding reported; ms_rate_no_overflow covers every other layout)']
+            'cvbr_average_bound is a theorem; CELT-only frames; hybrid frames run unconstrained by design)']
 CAL = json.load(open(os.path.join(common.VERIF, 'tools', 'calibration_C05.json')))
 SAN_EXTRA = ['-fno-sanitize=float-cast-overflow']   # DESIGN §9 O1: (int)floor(NaN) at opus_encoder.c:1226 is benign
 
@@ -85,6 +80,8 @@ def ties(ctx):
     hm = _h(ctx, 'san', 'c05_msrate')
     out.append(common.run_tie('encskel-msrate-grid', [hm, 'grid', '0' if q else '1']))
     out.append(common.run_tie('encskel-msrate-api', [hm, 'api', str(s), '60' if q else '600']))
+    out.append(common.run_tie('encskel-msrate-generic', [hm, 'generic', str(s), '40' if q else '400']))
+    out.append(common.run_tie('encskel-msrate-corpus', [hm, 'corpus', os.path.join(common.VERIF, 'corpus', 'C05', 'msrate_cases.txt')]))
     out.append(common.run_tie('encskel-silkrate', [hs, 'silkrate']))
     out.append(common.run_tie('encskel-gentoc', [hs, 'gentoc']))
     if not q:
@@ -373,7 +370,8 @@ def _runs(ctx):
             ('encsize-search-mssweep', [hp, 'mssweep', str(s + 1000), '0' if q else '1']),
             ('encsize-search-cvbr', [hp, 'cvbr', str(s), '40' if q else '400', str(CAL['seconds'])]),
             ('msrate-search-api', [_h(ctx, 'plain', 'c05_msrate'), 'api', str(s + 1000), '80' if q else '800']),
-            ('msrate-search-generic', [_h(ctx, 'plain', 'c05_msrate'), 'generic', str(s + 1000), '40' if q else '400'])]
+            ('msrate-search-generic', [_h(ctx, 'plain', 'c05_msrate'), 'generic', str(s + 1000), '40' if q else '400']),
+            ('msrate-search-corpus', [_h(ctx, 'plain', 'c05_msrate'), 'corpus', os.path.join(common.VERIF, 'corpus', 'C05', 'msrate_cases.txt')])]
 
 
 def search(ctx):
@@ -436,8 +434,8 @@ LEVEL_TEXT = ('proof of the size skeleton, partial for the property: Lean model 
               'ToC-only packet, no INTERNAL_ERROR / assertion site reachable; stOk (the ctl/decision-chain invariant the theorems assume) is preserved by '
               'every call and holds along every history from opus_encoder_create through any ctl requests (bridge to C11 EncInv '
               'by an explicit refinement map); multistream: every stream gets a legal budget and ret <= max_data_bytes, the integer rate '
-              'allocation (per-stream floors, what the sum is, no 32-bit overflow for layouts with <= 13 input channels per coded '
-              'channel, OPUS_AUTO always worth smallest_packet); CVBR '
+              'allocation (per-stream floors, what the sum is, no 32-bit overflow for every layout / frame size / setting, OPUS_AUTO '
+              'always worth smallest_packet); CVBR '
               'reservoir in [0, vbr_rate] and 64*sum(bytes) <= (N+1)*vbr_rate; tied to the code by replaying every recorded real '
               'call (return value, packet structure, post-state, inner calls) under ASan/UBSan; CVBR average only searched')
 LEVEL_NOTE = ('trusted: Lean kernel; oracle contracts on silk_Encode / celt_encode_with_ec / ec_tell (monitored at run time, not '
